@@ -28,15 +28,14 @@ func (p *defaultPoll) Free(operator *FDOperator) {
 }
 
 func (p *defaultPoll) appendHup(operator *FDOperator) {
-	p.hups = append(p.hups, operator.OnHup)
-	p.detach(operator)
-	operator.done()
-}
-
-func (p *defaultPoll) detach(operator *FDOperator) {
-	if err := operator.Control(PollDetach); err != nil {
-		logger.Printf("NETPOLL: poller detach operator failed: %v", err)
+	// The hang-up is reported only by the call that deregisters the descriptor. If somebody else
+	// (a user's Control(PollDetach)) has claimed the detach but not executed it yet, the descriptor
+	// is still registered: its level-triggered event comes back on every round and OnHup would be
+	// queued again and again, before the descriptor is deregistered.
+	if operator.detach() {
+		p.hups = append(p.hups, operator.OnHup)
 	}
+	operator.done()
 }
 
 func (p *defaultPoll) onhups() {
